@@ -5,10 +5,29 @@ HERE = os.path.dirname(os.path.abspath(__file__))
 TRUST = ("z3 5.1 (path feasibility, verification conditions); CPython; the executor and the solver stand-ins of vf/ "
          "(validated on every run against the repository's stored regression answers and by replaying every counterexample on the genuine stack); "
          "the specification library vf/specs.py (validated by the sanity lemmas run first)")
+SYMEX = "symbolic execution (own decision-replay executor on z3) of the real code with truth-table solver stand-ins; per-path unsat VC against an independent z3 specification; counterexample replay on the real stack"
 CHECKS = {
  "C01": dict(cat="model_checking",
    text="Bounded-exhaustive symbolic execution of the real PEntailment/consistency code: every feasible path for every base of <=3 (thorough <=5) conditionals and every query whose formulas distinguish <=8 (thorough 16) classes of worlds is compared by z3 with an independent unrolled-tolerance specification (itself proved equivalent to 'accepted by all ranking models' at N=2). A bounded claim, not a proof.",
-   ref="3 C01", tech="symbolic execution (own decision-replay executor on z3) of the real code with truth-table solver stand-ins; per-path unsat VC against a spec; counterexample replay on the real stack"),
+   ref="3 C01", tech=SYMEX),
+ "C02": dict(cat="model_checking",
+   text="Same machinery on SystemZ._preprocess_belief_base/_inference/_rec_inference: all paths for bases with <=4 (thorough 5) conditionals over <=16 world classes; oracle = rank comparison under the Z-ranking built from the specification's own tolerance layers. Bounded.",
+   ref="3 C02", tech=SYMEX),
+ "C03": dict(cat="model_checking",
+   text="System W, both back-ends: L1 runs the real optimizer.py / Tseitin code (genuine z3 tactic on formula skeletons) on an RC2 stand-in that returns ANY optimal model, and the real system_w_z3 on a MaxSAT stand-in; L2 replaces minimal_correction_subsets by its specification to reach N=3,M=3..4. Oracle: forall v |= A!B exists w |= AB with w <_w v, expanded over all world pairs. Shapes with literal Top/Bottom and compound positions included. Bounded.",
+   ref="3 C03", tech=SYMEX),
+ "C04": dict(cat="model_checking",
+   text="Lexicographic inference, both back-ends, same stub depths and bounds as C03; oracle: exists w |= AB below every v |= A!B in the lexicographic order of per-layer falsification counts. This check found the 'every pair of minimal sets' defect (fixed in /repo, see known_findings.json). Bounded.",
+   ref="3 C04", tech=SYMEX),
+ "C05": dict(cat="model_checking",
+   text="c-inference: the real compile_constraint/translate/encoding/compile_and_encode_query run symbolically (paths fix all minimal-correction-set lists, the CSP is then concrete and solved by the genuine z3). Answer True is checked against all non-negative integer impact vectors (unbounded), answer False by a CEGIS loop exhibiting a rejecting c-representation for every base on the path. Bounds N<=3, M<=2 (thorough 3).",
+   ref="3 C05", tech=SYMEX + "; CEGIS for existential witnesses"),
+ "C06": dict(cat="model_checking",
+   text="consistency() and consistency_indices() (both modes, keys 1..M / 0-based / sparse) against the unrolled definition incl. uniqueness, layer order and the infinity layer; consistency_diagnostics with <=2 symbolic facts against the definitions applied to base and base+(Bottom|!fact); refusal of empty / inconsistent bases by all 7 operator classes in both modes. Bounds N<=3, M<=4 (thorough N=4, M<=6).",
+   ref="3 C06", tech=SYMEX),
+ "C07": dict(cat="model_checking",
+   text="weakly=True branches of p-entailment, System Z, System W, lex_inf (all back-ends) on every weakly consistent symbolic base within the bounds of C01-C04: result must be a Boolean equal to the extended specification (feasible worlds, finite layers); any exception on such a base is a violation. Found and fixed: IndexError without finite layer, z3 back-ends ignoring the infinity layer.",
+   ref="3 C07", tech=SYMEX),
 }
 NA = {
  "C10": "ANTLR-generated parser interpreted by the antlr4 runtime: symbolic inputs are concretised at the first DFA lookup, CrossHair gave an unsound 'Confirmed' (DFA-cache nondeterminism) and no verdict in 8 min for |s|<=3; an SMT model of ALL(*) would be a model of the runtime, not the real code (DESIGN.md 3 C10)",
